@@ -42,7 +42,7 @@ ASSUMPTIONS = ['coefficients are reals', 'float constants in generated code (1/k
 BOUNDS = {'quick': 'all (p,q,r) d<=3 and selected d=4; outer series on scalar-free patterns (grade unions, random sparse, dense bivector d<=4); sqrt on scalar+blade and scalar+bivectors(3-D); exp on every single-blade pattern and 2-blade commuting patterns',
           'thorough': 'all (p,q,r) d<=4, d=5,6 sparse'}
 OUTSIDE = ['cosh/sinh/cos/sinc = their power series', 'complex coefficients / negative a^2 - B^2', 'outertan of dense operands in d >= 5', 'outerexp of operands WITH scalar part (kingdon truncates and warns)',
-           'exp() on numpy-array coefficients']
+           'exp() on numpy-array coefficients beyond the concrete shapes sampled by the exp-ndarray kind (one coefficient; 0-d, 1 and 3 entries)']
 OPTS = {'rlimit': 300_000_000, 'canary_every': 10, 'max_paths': 64, 'case_budget_s': 120}
 CHUNKS_PER_WORKER = 10
 
@@ -84,6 +84,7 @@ def cases(tier, seed):
         for k in (rng.sample(nosc, min(3, len(nosc))) if nosc else []):
             out.append(dict(kind='exp-sympy-assumptions', cfg=cfg, ka=[k]))
             out.append(dict(kind='exp-numpy-scalars', cfg=cfg, ka=[k]))
+            out.append(dict(kind='exp-ndarray', cfg=cfg, ka=[k]))
         # norm / normalized on CONCRETE python floats and numpy scalars (the type-dispatching numeric paths), every sign of normsq
         for k in (rng.sample(nosc, min(4, len(nosc))) if nosc else []):
             out.append(dict(kind='norm-concrete', cfg=cfg, ka=[k]))
@@ -113,7 +114,7 @@ def run_case(desc, V):
     kind = desc['kind']
     if kind in ('exp', 'exp-sympy'):
         return _run_exp(desc, V)
-    if kind in ('exp-sympy-assumptions', 'exp-numpy-scalars'):
+    if kind in ('exp-sympy-assumptions', 'exp-numpy-scalars', 'exp-ndarray'):
         return _run_exp_concrete(desc, V)
     if kind == 'norm-concrete':
         return _run_norm_concrete(desc, V)
@@ -295,6 +296,24 @@ def _run_exp_concrete(desc, V):
             for kk, v in got.items():
                 if kk not in (0, k):
                     claims.append(near(f'exp-{tag}-other[{kk}]', num(v), 0.0, f'exp|sympy-assumptions|{tag}'))
+        return claims
+    if desc['kind'] == 'exp-ndarray':
+        sign = 'positive' if sq > 0 else ('zero' if sq == 0 else 'negative')
+        for tag, arr in (('size-1', np.array([0.5])), ('size-3', np.array([0.5, 1.5, 2.0])), ('0-d', np.array(0.5))):
+            x = alg.multivector(keys=(k,), values=[arr])
+            fkey = f'exp|ndarray|{tag}|{sign}-square'
+            try:
+                r = x.exp()
+            except Exception as e:  # noqa
+                claims.append(Fail(f'exp-ndarray-{tag}:raises', f'exp() of a {sign}-square element with an ndarray coefficient of {tag} raised {type(e).__name__}: {e}', fkey=fkey + '|raises'))
+                continue
+            got = coeffs(r)
+            for i, tv in enumerate(np.atleast_1d(arr)):
+                c0, c1 = closed(float(tv))
+                g0 = np.broadcast_to(np.asarray(got.get(0, 0)), np.atleast_1d(arr).shape)[i]
+                g1 = np.broadcast_to(np.asarray(got.get(k, 0)), np.atleast_1d(arr).shape)[i]
+                claims.append(near(f'exp-ndarray-{tag}[0,{i}]', complex(g0), c0, fkey))
+                claims.append(near(f'exp-ndarray-{tag}[{k},{i}]', complex(g1), c1, fkey))
         return claims
     for tag, mk in (('float64', np.float64), ('float32', np.float32), ('int64', np.int64), ('int', int), ('fraction', Fraction)):
         tval = 2 if tag in ('int64', 'int') else 0.5
